@@ -6,6 +6,12 @@ REPLAY = './check replay {path}'
 TB = ('trusted base: nightly MIR dump of the current tree; mirsym executor (engine/mirsym) and its std models listed in the '
       'evidence (trusted_base); cvc5 1.0 / z3 4.8.12; valid-configuration preconditions listed under assumptions')
 CHECKS = {
+ 'C01': dict(level='proof', design='§4 C01',
+             text='Bounded proof: the real builder API, derive(Animate) expansion, TimelineBuilderArguments::from (sort), prepare_frame (binary search) and SubTimeline::{from_keyframes,value_at,get_bounding_frames,get_frame,override_start_value}, interpolate_value are executed symbolically for every keyframe shape up to the bound (which keyframes define which property / carry an easing, with/without start override: enumerated; positions, values, time-scale output: symbolic); one SMT obligation per execution path compares the result with a reference written from the property text (lerp/easing uninterpreted, so the term names the keyframes and the easing used).',
+             technique='symbolic execution of rustc MIR (path enumeration) + SMT (z3, QF_UF+FP)'),
+ 'C11': dict(level='proof', design='§4 C11',
+             text='Bounded proof: for every non-identity insertion order of N<=3 (thorough 4) keyframes at symbolic distinct positions the timeline built by the real builder is compared with the one built in increasing order: structurally identical built values (boundary_times, time scale, every sub-timeline) discharge the obligation; otherwise both are evaluated symbolically at a symbolic time and the solver decides equality of update and metadata.',
+             technique='symbolic execution of rustc MIR + structural equality / SMT (z3)'),
  'C03': dict(level='proof', design='§4 C03',
              text='Bounded proof: every clause of the property is an SMT obligation over the symbolic execution of the real MIR of TimeScale::{new,get_position,get_duration,get_delay,get_cycle_duration,get_repeat}; all finite f32 t/delay/duration (quick: low 12 mantissa bits zero), every repeat variant and u32 count, both build profiles; sat answers are replayed natively before being reported.',
              technique='symbolic execution of rustc MIR + SMT (cvc5/z3 portfolio), QF_FPBV'),
